@@ -9,7 +9,7 @@ ENTRY = {
             "abaco.go": {"only": ["readerMainLoop", "getNextBlock", "distributeData", "Sample"]},
             "writing_state.go": {}}},
         "textpatch": [{"file": "abaco.go", "old": "ticker := time.NewTicker(as.readPeriod)", "new": "ticker := vNewTicker(as.readPeriod)"}],
-        "quick": T(16, 120), "thorough": T(16, 900),
+        "quick": T(16, 180), "thorough": T(16, 900),
         "rule": "part 1: one execution per (request type, argument class / I/O fault, source running or not) and per select alternative, through the real SourceControl "
                 "methods, runLaterIfActive, the real CoreLoop and the real handlers of a scripted two-channel source; every request that has to be refused is also sent twice in a row, "
                 "and every request is also followed by Stop, Start (with the record lengths of the server status, as SourceControl.Start does), an edge trigger and two blocks with pulses; part 2: one execution = one complete interleaving "
